@@ -251,7 +251,7 @@ def tset_case(draw):
         hi = lo + draw(st.sampled_from([1.0, 3.5, 10.0, 3.0]))
         jp = dict(xjumplo=lo, xjumphi=hi, xjumpval=draw(st.sampled_from([0.5, -1.25, 3.0, 0.0])))
     return dict(ntr=ntr, nx=nx, nc=nc, func=func, xkind=xkind, rows=rows, coeff=coeff, jump=jp, ykind=draw(st.sampled_from(['exact', 'noisy'])),
-                xminmax=draw(st.sampled_from([None, None, 'wider', 'xmin-only', 'xmax-only'])), xedge=draw(st.sampled_from([2.0, 0.5, 2.25])), rerange=draw(st.sampled_from([None, None, [2.0, 3.0], [0.0, 10.0]])), zeros=draw(st.lists(st.integers(0, ntr * nx - 1), max_size=5, unique=True)),
+                xminmax=draw(st.sampled_from([None, None, 'wider', 'xmin-only', 'xmax-only'])), xedge=draw(st.sampled_from([2.0, 0.5, 2.25, -1.5])), rerange=draw(st.sampled_from([None, None, [2.0, 3.0], [0.0, 10.0]])), zeros=draw(st.lists(st.integers(0, ntr * nx - 1), max_size=5, unique=True)),
                 noise=[draw(uf) for _ in range(8)], xorder=draw(st.sampled_from(['asc', 'asc', 'desc', 'shuffled'])), xdtype=draw(st.sampled_from(['f8', 'f8', 'i8', 'i4'])) if xkind == 'grid' else 'f8')
 
 
@@ -266,7 +266,8 @@ def tset_body(case):
         X = X[:, np.argsort((np.sin(np.arange(nx) * 12.9898) * 43758.5453) % 1.0)].copy()
     note_label('xorder:' + case.get('xorder', 'asc'))
     kw = dict(ncoeff=nc, func=func, maxiter=0)
-    xe = case.get('xedge', 2.0)        # limits on whole numbers or on pixel edges (x.5), whatever the type of the positions
+    xe = case.get('xedge', 2.0)        # limits on whole numbers or on pixel edges (x.5), whatever the type of the positions; -1.5: a baseline narrower than the
+    # positions (some lie outside it, |normalised x| > 1): still the requested baseline
     if case['xminmax'] == 'wider':
         kw.update(xmin=float(X.min()) - xe, xmax=float(X.max()) + xe + 1.0)
     elif case['xminmax'] == 'xmin-only':       # each limit is a keyword of its own: the other one comes from the positions
